@@ -71,6 +71,17 @@ def variant_other_firewall(sp):
     return v
 
 
+def variant_other_services(sp):
+    """the same network, firewall, definitions and sensitive hosts; every host runs exactly the services (and
+    processes) the original does NOT run (at least one)"""
+    v = copy.deepcopy(sp)
+    for h, d in v["hosts"].items():
+        comp = [s for s in sp["services"] if s not in sp["hosts"][h]["srv"]]
+        d["srv"] = comp or [sp["services"][0]]
+        d["proc"] = [p for p in sp["processes"] if p not in sp["hosts"][h]["proc"]]
+    return v
+
+
 def variant_host_order(sp):
     """the same network with the hosts listed in another order (another address -> row mapping)"""
     v = copy.deepcopy(sp)
@@ -120,6 +131,8 @@ def pairs(tier):
     ps.append(("same_layout_other_subnet_sizes", [S["twins"], variant_more_hosts(S["twins"])]))
     # the same wiring and hosts, complementary firewall rules; both sides try every exploit on the first hosts
     ps.append(("same_wiring_other_firewall", [S["fw_asym"], variant_other_firewall(S["fw_asym"])]))
+    # the same wiring and firewall, complementary host configurations; both sides try every exploit on the first hosts
+    ps.append(("same_wiring_other_host_services", [S["fw_asym"], variant_other_services(S["fw_asym"])]))
     # two large networks (state tensors of more than 1000 cells) that differ only in the middle rows, fully observable
     ps.append(("large_same_layout_middle_rows_differ", [S["big68"], variant_middle(S["big68"])]))
     if tier == "thorough":
@@ -254,7 +267,7 @@ def run_pair(job):
             os.makedirs(pwd)
             ok, plan, _ = checks_plan.greedy_plan(cs, pwd)
             plans[i] = plan or [1, 2, 3]
-            if name.startswith("same_wiring_other_firewall"):
+            if name.startswith("same_wiring_other"):
                 # probing: every exploit against the first two hosts, in the same order on both sides
                 ph_ = pyref.per_host(cs)
                 ne_ = len(cs["exploits"])
@@ -264,7 +277,7 @@ def run_pair(job):
         # Action OBJECTS shared between environments (same layout): in every second schedule a step is made with the
         # member of the OTHER environment's action list that has the same index
         share_actions = name in ("same_layout_other_content", "same_wiring_other_firewall",
-                                 "same_layout_other_host_order", "same_scenario")
+                                 "same_wiring_other_host_services", "same_layout_other_host_order", "same_scenario")
         for si_, sched in enumerate(scheds):
             live = {}            # slot -> (eid, scn id, env, step counter)
             for (kind, slot, s, foreign, kf) in sched:
@@ -279,11 +292,19 @@ def run_pair(job):
                 else:
                     k = plans[s][live[slot][3] % len(plans[s])]
                     live[slot][3] += 1
+                    if len(live[slot]) > 4:
+                        live[slot][4] = k
+                    else:
+                        live[slot].append(k)
                     a = pyref.flat_action(cs_by[s], k)
                     others_ = [v for sl_, v in live.items() if sl_ != slot]
                     if flat_actions and share_actions and si_ % 2 == 1 and others_ \
                             and len(others_[0][2].action_space.actions) > k - 1:
-                        sp_ = ("realobj", others_[0][2].action_space.actions[k - 1])
+                        # the very object the other environment used last (if it has acted), else the member of its
+                        # list with this environment's own index
+                        ko = others_[0][4] if len(others_[0]) > 4 and si_ % 4 == 1 else k
+                        sp_ = ("realobj", others_[0][2].action_space.actions[ko - 1])
+                        a = pyref.flat_action(cs_by[others_[0][1]], ko)
                     elif flat_actions:
                         sp_ = ("int", k - 1)
                     else:
